@@ -265,6 +265,25 @@ def check_cache_coherence(ck, cm):
         okv = [A.norm(a) for a in c.args[:2]] == ["memento", "result"] and hv is not None and A.norm(hv) == "True"
         ck.ob(R, fa.key(c, "args"), okv, "cache receives (memento, result, has_result=True)" if okv else
               "the write-through does not pass the memoized (memento, result) with has_result=True", fa.where(c))
+    # replace-on-put also covers the weak-reference slot: when the new value cannot be weakly
+    # referenced, the slot of the previous value must be cleared (it would be served later)
+    if cm.refs:
+        for name, m in cm.cls.methods.items():
+            fa_ = FA(ck, m)
+            for st in fa_.stmts(ast.Assign):
+                if any(isinstance(t, ast.Subscript) and self_attr(t.value, cm.refs) for t in st.targets):
+                    tr = fa_.enclosing(st, ast.Try)
+                    if tr is None or not any(fa_.inside(st, b) for b in tr.body):
+                        continue
+                    for h in tr.handlers:
+                        swallows = not any(isinstance(n, ast.Raise) for n in A.walk_local(h))
+                        clears = any((isinstance(n, ast.Call) and A.call_attr(n) == "pop" and self_attr(A.call_recv(n), cm.refs)) or
+                                     (isinstance(n, ast.Delete) and any(isinstance(t, ast.Subscript) and self_attr(t.value, cm.refs) for t in n.targets))
+                                     for n in A.walk_local(h))
+                        okw = (not swallows) or clears
+                        ck.ob(R, fa_.key(None, "weak-slot-replaced"), okw, "a value that cannot be weakly referenced clears the key's weak slot" if okw else
+                              "when the new value cannot be weakly referenced the handler keeps the previous value's weak reference: after the entry "
+                              "is evicted, read_result serves the OLD object for that call", fa_.where(h))
     # a memento-only cache entry never answers a value read
     gm = FA(ck, BACKEND_BASE + ".get_mementos")
     for c in _field_calls(gm, "_memory_cache", "put"):
